@@ -492,4 +492,11 @@ def run(prog, ctx):
                        "conservation with its guard, bound accessor formulas, purge flow, resize-or-purge after every insertion, sizing formulas "
                        "evaluated for lg 0..=31" % len(reach))
     res.not_decided = "the bracket lower <= true count <= upper for every item of every stream"
+    # ---------------- C07.T reset: the fresh sketch is assigned as the constructor built it
+    n_t = 0
+    for (f_, ok, what, span) in C.reset_assigns_fresh(prog, F):
+        n_t += 1
+        res.tri(ok, "C07.T", "C07.T|%s" % f_.id, "%s builds a fresh sketch and changes it before `*self = ..` (%s): fields the constructor computed for the part "
+                "that was replaced (the cached map capacity) no longer describe it -- a reset sketch that had grown purges as if its map were the minimum size" % (f_.id, what), f_.id, span)
+    res.rule("C07.T", n_t, 1, "reset() assigning a freshly constructed sketch")
     return res
